@@ -400,7 +400,20 @@ def model_job(job):
             sc["removal"] = rng.uniform(0.002, 0.02)
             sc["prog"] = None
             sc.pop("want_prog", None)
-            rp.prepare(rng, sc)
+            # (choosing the step length evaluates the flux once: that call runs under the watchdogs as well)
+            w.start(BUDGET * 2)
+            try:
+                ok = rp.prepare(rng, sc) is not None
+                aborted = False
+            except Abort:
+                ok, aborted = False, True
+            _, _, cnt0 = w.stop()
+            if aborted:
+                out.append([{"ev": "Model", "kind": "initial_flux", "model": sc["model"], "N": sc["N"], "outcome": "abort", "exc": None,
+                             "n": cnt0, "budget": BUDGET * 2, "mixname": sc["mix"].name}])
+                continue
+            if not ok:
+                sc["dt"] = gen.logu(rng, 1e-4, 1e-2)
         perv = pv.Pervaporation(membrane=sc["membrane"], mixture=sc["mix"])
         w.start(BUDGET * 2)
         outcome, exc = "return", None
